@@ -115,14 +115,14 @@ def coq_indices(out, n_expected, run, name):
     return [int(v) for v in re.findall(r"\d+", m.group(2))]
 
 
-def eval_bool_cases(run, name, exprs, descr):
+def eval_bool_cases(run, name, exprs, descr, head=None, chunk=40):
     """exprs: list of Coq boolean expressions; reports the false ones"""
     from concurrent.futures import ThreadPoolExecutor
-    chunk = 40
+    head = CASE_HEAD if head is None else head
     jobs = []
     for c0 in range(0, len(exprs), chunk):
         body = ";\n".join(exprs[c0:c0 + chunk])
-        text = (CASE_HEAD + "Definition cases : list bool := [\n" + body
+        text = (head + "Definition cases : list bool := [\n" + body
                 + "].\nFixpoint bad (i : nat) (l : list bool) : list nat :="
                 " match l with [] => [] | b :: t => if b then bad (S i) t "
                 "else i :: bad (S i) t end.\n"
